@@ -236,8 +236,10 @@ def pick_level(rng, G0, g0_exact, mode):
     (near) |g(t0)| tiny."""
     lo, hi = float(G0.min()), float(G0.max())
     rngG = max(hi - lo, 1e-9)
-    if mode == "cross":                      # value of G0 at a random (non-grid) time: linear interpolation of the sample
-        u = float(rng.uniform(0.05, 1.0)) * (len(G0) - 1)
+    if mode in ("cross", "late"):            # value of G0 at a random (non-grid) time: linear interpolation of the sample
+        # "late": the zero lies in the last 0.05 % - 1.5 % of the span, i.e. inside the final step, which every driver clips to the
+        # end of the span (the refinement must then use the clipped step, not the controller's natural one)
+        u = float(rng.uniform(0.05, 1.0) if mode == "cross" else 1.0 - 10.0 ** rng.uniform(-3.3, -1.8)) * (len(G0) - 1)
         k = min(int(u), len(G0) - 2)
         return float(G0[k] + (u - k) * (G0[k + 1] - G0[k]))
     if mode == "none":
@@ -306,10 +308,10 @@ def gen_generic(rng, drv, lib, kappa, it):
     g_nc, _ = mk(a, at, 0.0)
     G0 = g_nc(tt, X)
     if ek == "aff-coord":
-        mode = ["cross", "cross", "cross", "none", "surface", "near"][int(rng.integers(6))]
+        mode = ["cross", "cross", "late", "none", "surface", "near"][int(rng.integers(6))]
         g0_exact = float(x0[i])
     else:
-        mode = ["cross", "cross", "cross", "none"][int(rng.integers(4))]
+        mode = ["cross", "cross", "late", "none"][int(rng.integers(4))]
         g0_exact = float(G0[0])
     c = pick_level(rng, G0, g0_exact, mode)
     gpy, gnorm = mk(a, at, c)
@@ -393,10 +395,10 @@ def gen_ham(rng, drv, lib, kappa, it):
         g_nc, _ = py_hamA(th, 0.0)
         G0 = g_nc(tt, X)
         if th == 0.0:
-            mode = ["cross", "cross", "none", "surface", "near"][int(rng.integers(5))]
+            mode = ["cross", "late", "none", "surface", "near"][int(rng.integers(5))]
             g0_exact = float(x0[0])
         else:
-            mode = ["cross", "cross", "cross", "none"][int(rng.integers(4))]
+            mode = ["cross", "cross", "late", "none"][int(rng.integers(4))]
             g0_exact = float(G0[0])
         c = pick_level(rng, G0, g0_exact, mode)
         x0[2] = c
